@@ -24,7 +24,7 @@ impl Compiler {
         ensures
             r is Ok ==> hstep(old(self).height@, final(self).height@, 1),
             //@VACUITY
-            sym_wf(final(self).symbols),
+            sym_wf(final(self).symbols), sym_globals_kept(old(self).symbols, final(self).symbols),
             r is Ok ==> ({
                 let n = arguments@.len() as int;
                 let code = final(self).instructions@;
@@ -39,7 +39,7 @@ impl Compiler {
             r is Ok ==> is_prefix(old(self).instructions@, final(self).instructions@),
             r is Ok ==> gen_post(*old(self), *final(self), true),
     {
-//@LOOP 1 invariant hstep(old(self).height@, self.height@, __it.index@ as int), gen_inv(*self), gen_inv(*old(self)), gen_post(*old(self), *self, false), sym_depth(self.symbols) == sym_depth(old(self).symbols), sym_contexts(self.symbols) == sym_contexts(old(self).symbols), sym_outer(self.symbols) == sym_outer(old(self).symbols), is_prefix(old(self).instructions@, self.instructions@), self.log@.len() == old(self).log@.len() + __it.index@, forall|j: int| 0 <= j < __it.index@ ==> #[trigger] self.log@[old(self).log@.len() + j].what == LogWhat::E(arguments@[j]),
+//@LOOP 1 invariant sym_globals_kept(old(self).symbols, self.symbols), hstep(old(self).height@, self.height@, __it.index@ as int), gen_inv(*self), gen_inv(*old(self)), gen_post(*old(self), *self, false), sym_depth(self.symbols) == sym_depth(old(self).symbols), sym_contexts(self.symbols) == sym_contexts(old(self).symbols), sym_outer(self.symbols) == sym_outer(old(self).symbols), is_prefix(old(self).instructions@, self.instructions@), self.log@.len() == old(self).log@.len() + __it.index@, forall|j: int| 0 <= j < __it.index@ ==> #[trigger] self.log@[old(self).log@.len() + j].what == LogWhat::E(arguments@[j]),
 //@PRELOOP 1 proof { lemma_gen_post_refl(*old(self)); }
 //@GHOST before="self.compile_expression(a)?;" let ghost s_it = *self;
 //@GHOST after="self.compile_expression(a)?;" proof { lemma_gen_post_trans(*old(self), s_it, *self, false, true); }
@@ -66,7 +66,7 @@ impl Compiler {
         ensures
             r is Ok ==> hstep(old(self).height@, final(self).height@, 1),
             //@VACUITY
-            sym_wf(final(self).symbols),
+            sym_wf(final(self).symbols), sym_globals_kept(old(self).symbols, final(self).symbols),
             r is Ok ==> ({
                 let n = values@.len() as int;
                 let code = final(self).instructions@;
@@ -77,7 +77,7 @@ impl Compiler {
             r is Ok ==> is_prefix(old(self).instructions@, final(self).instructions@),
             r is Ok ==> gen_post(*old(self), *final(self), true),
     {
-//@LOOP 1 invariant hstep(old(self).height@, self.height@, __it.index@ as int), gen_inv(*self), gen_inv(*old(self)), gen_post(*old(self), *self, false), sym_depth(self.symbols) == sym_depth(old(self).symbols), sym_contexts(self.symbols) == sym_contexts(old(self).symbols), sym_outer(self.symbols) == sym_outer(old(self).symbols), is_prefix(old(self).instructions@, self.instructions@), self.log@.len() == old(self).log@.len() + __it.index@, forall|j: int| 0 <= j < __it.index@ ==> #[trigger] self.log@[old(self).log@.len() + j].what == LogWhat::E(values@[j]),
+//@LOOP 1 invariant sym_globals_kept(old(self).symbols, self.symbols), hstep(old(self).height@, self.height@, __it.index@ as int), gen_inv(*self), gen_inv(*old(self)), gen_post(*old(self), *self, false), sym_depth(self.symbols) == sym_depth(old(self).symbols), sym_contexts(self.symbols) == sym_contexts(old(self).symbols), sym_outer(self.symbols) == sym_outer(old(self).symbols), is_prefix(old(self).instructions@, self.instructions@), self.log@.len() == old(self).log@.len() + __it.index@, forall|j: int| 0 <= j < __it.index@ ==> #[trigger] self.log@[old(self).log@.len() + j].what == LogWhat::E(values@[j]),
 //@PRELOOP 1 proof { lemma_gen_post_refl(*old(self)); }
 //@GHOST before="self.compile_expression(v)?;" let ghost s_it = *self;
 //@GHOST after="self.compile_expression(v)?;" proof { lemma_gen_post_trans(*old(self), s_it, *self, false, true); }
@@ -101,7 +101,7 @@ impl Compiler {
         ensures
             r is Ok ==> hstep(old(self).height@, final(self).height@, 1),
             //@VACUITY
-            sym_wf(final(self).symbols),
+            sym_wf(final(self).symbols), sym_globals_kept(old(self).symbols, final(self).symbols),
             r is Ok ==> (logged_in_order(*old(self), *final(self), seq![**left, **index], 0) && final(self).instructions@.last() == opcode_byte(OpCode::IndexGet)),
             r is Ok ==> is_prefix(old(self).instructions@, final(self).instructions@),
             r is Ok ==> gen_post(*old(self), *final(self), true),   // the arm itself meets the generator contract it assumes of its callees
@@ -124,7 +124,7 @@ impl Compiler {
         ensures
             r is Ok ==> hstep(old(self).height@, final(self).height@, 1),
             //@VACUITY
-            sym_wf(final(self).symbols),
+            sym_wf(final(self).symbols), sym_globals_kept(old(self).symbols, final(self).symbols),
             r is Ok ==> (logged_in_order(*old(self), *final(self), seq![**right], 0)
                 && ((*operator == Operator::Not && final(self).instructions@.last() == opcode_byte(OpCode::Not))
                     || ((*operator == Operator::Negate || *operator == Operator::Subtract) && final(self).instructions@.last() == opcode_byte(OpCode::Negate)))),
@@ -148,7 +148,7 @@ impl Compiler {
         ensures
             r is Ok ==> hstep(old(self).height@, final(self).height@, 1),
             //@VACUITY
-            sym_wf(final(self).symbols),
+            sym_wf(final(self).symbols), sym_globals_kept(old(self).symbols, final(self).symbols),
             r is Ok, final(self).instructions@ == old(self).instructions@.push(opcode_byte(if *value { OpCode::True } else { OpCode::False })),
             r is Ok ==> gen_post(*old(self), *final(self), true),
     {
@@ -169,7 +169,7 @@ impl Compiler {
         ensures
             r is Ok ==> hstep(old(self).height@, final(self).height@, 1),
             //@VACUITY
-            sym_wf(final(self).symbols),
+            sym_wf(final(self).symbols), sym_globals_kept(old(self).symbols, final(self).symbols),
             !(MIN_INT <= *value <= MAX_INT) ==> (r is Err && final(self).instructions@ == old(self).instructions@),
             r is Ok ==> ({
                 let code = final(self).instructions@;
@@ -199,7 +199,7 @@ impl Compiler {
         ensures
             r is Ok ==> hstep(old(self).height@, final(self).height@, 0),
             //@VACUITY
-            sym_wf(final(self).symbols),
+            sym_wf(final(self).symbols), sym_globals_kept(old(self).symbols, final(self).symbols),
             r is Ok ==> (logged_in_order(*old(self), *final(self), seq![*expr], 0) && final(self).instructions@.last() == opcode_byte(OpCode::Pop)
                 && final(self).last_instruction == Some(OpCode::Pop) && final(self).instructions@.len() == final(self).log@.last().end + 1),
             r is Ok ==> is_prefix(old(self).instructions@, final(self).instructions@), r is Ok ==> gen_inv(*final(self)),
@@ -222,7 +222,7 @@ impl Compiler {
         ensures
             r is Ok ==> hstep(old(self).height@, final(self).height@, 0),
             //@VACUITY
-            sym_wf(final(self).symbols),
+            sym_wf(final(self).symbols), sym_globals_kept(old(self).symbols, final(self).symbols),
             !sym_in_function(old(self).symbols) ==> (r matches Err(Error::SyntaxError(_)) && final(self).instructions@ == old(self).instructions@ && final(self).log@ == old(self).log@),
             r is Ok ==> (sym_in_function(old(self).symbols) && logged_in_order(*old(self), *final(self), seq![*expr], 0)
                 && final(self).instructions@.last() == opcode_byte(OpCode::ReturnValue)),
@@ -245,7 +245,7 @@ impl Compiler {
         requires gen_inv(*old(self))
         ensures
             r is Ok ==> hstep(old(self).height@, final(self).height@, 0),
-            sym_wf(final(self).symbols),
+            sym_wf(final(self).symbols), sym_globals_kept(old(self).symbols, final(self).symbols),
             //@VACUITY
             r is Ok ==> final(self).last_instruction == Some(OpCode::Pop) && final(self).instructions@.last() == opcode_byte(OpCode::Pop),
             r is Ok ==> exists|v: Compiler| block_value_post(*old(self), v, stmts@) && final(self).instructions@ == v.instructions@.push(opcode_byte(OpCode::Pop)) && final(self).log@ == v.log@,
@@ -269,7 +269,7 @@ impl Compiler {
         ensures
             r is Ok ==> hstep(old(self).height@, final(self).height@, 1),
             //@VACUITY
-            sym_wf(final(self).symbols),
+            sym_wf(final(self).symbols), sym_globals_kept(old(self).symbols, final(self).symbols),
             r is Ok ==> ({
                 let code = final(self).instructions@;
                 let n = old(self).instructions@.len() as int;
@@ -297,7 +297,7 @@ impl Compiler {
         ensures
             r is Ok ==> hstep(old(self).height@, final(self).height@, 1),
             //@VACUITY
-            sym_wf(final(self).symbols),
+            sym_wf(final(self).symbols), sym_globals_kept(old(self).symbols, final(self).symbols),
             r is Ok ==> ({
                 let code = final(self).instructions@;
                 let n = old(self).instructions@.len() as int;
